@@ -173,7 +173,7 @@ func (f DefFault) String() string {
 	return string(b)
 }
 
-var replacements = []string{`null`, `"x"`, `7`, `true`, `[]`, `{}`, `[null]`, `""`, `-1`, `[{}]`, `{"uuid":null}`}
+var replacements = []string{`null`, `"x"`, `7`, `true`, `[]`, `{}`, `[null]`, `""`, `-1`, `[{}]`, `{"uuid":null}`, `0`, `false`}
 
 // jsonPaths lists every path of a JSON document ("/nodes/0/actions/1/type").
 func jsonPaths(x any, prefix string, out *[]string) {
@@ -895,6 +895,11 @@ func MigrationInvariants(src []byte, resetSeams func(), knownValid bool) (kind, 
 	b2, _ := jsonx.Marshal(fl2)
 	if string(b1) != string(b2) {
 		return "marshal-not-fixpoint", firstDiff(string(b1), string(b2))
+	}
+	// ... and reads back to an *equal* definition: equal bytes are not enough, a member whose zero value is
+	// dropped on marshalling and defaulted on reading gives two different flows with the same JSON
+	if d := deepDiff(fl, fl2); d != "" {
+		return "reread-not-equal", "the definition read from its own marshalled form differs from the definition it was marshalled from at " + d
 	}
 	return "", "accepted"
 }
